@@ -75,4 +75,7 @@ theorem gen_anomaly_intervals_eq_model (s e m : Nat) (hm : m ≤ e) :
   simp only [anomaly_intervals, h1]
   simp [hl, anomalyIntervals, innerOf, List.map_flatMap, Function.comp_def, hlen]
 
+/-- kernel evaluation of the generated definition on a concrete candidate (`m ≤ e` holds: `1 ≤ 5`) -/
+example : anomaly_intervals 0 5 1 = some ([1, 1, 1, 2, 2, 3], [2, 3, 4, 3, 4, 4]) := by decide
+
 end Skc
